@@ -3,7 +3,7 @@ from collections import Counter
 
 import numpy as np
 
-from vlib import clock, graphs as G, gens
+from vlib import alias, clock, graphs as G, gens
 from vlib.base import import_dsw
 from vlib.coding import monitored, ArgGuard
 from vlib.proxies import frozen
@@ -74,6 +74,7 @@ def check_graph(ctx, case):
     big = 400 * n * 4 + 100000
 
     lm = None
+    mat_ok = None
     out = monitored(dsw.accessor_to_latter_map, big, facc)
     if out.kind != "ok" or not isinstance(out.value, dict):
         ctx.fail("to-latter-map-" + out.kind, "accessor_to_latter_map %s; %s" % (out.describe(), where))
@@ -116,6 +117,7 @@ def check_graph(ctx, case):
             if mat.shape != (n, n) or not np.array_equal(mat, want):
                 ctx.fail("matrix-content", "adjacency matrix differs from the arc set; %s" % where)
             else:
+                mat_ok = want.copy() if n <= 1024 else None
                 layout = rng.choice(["C", "C", "F", "T"])
                 arg = frozen(mat) if layout == "C" else np.asfortranarray(mat) if layout == "F" else np.ascontiguousarray(mat.T).T
                 ctx.cls("matrix layout|" + layout)
@@ -168,6 +170,18 @@ def check_graph(ctx, case):
                 ctx.cls("earlier matrix re-read after a later conversion (k=%d)" % k if k >= 5 else "earlier matrix re-read after a later conversion")
             del mat, want
 
+    # G1: the caller edits what a converter handed back; the same conversion must not change
+    if mat_ok is not None and rng.random() < 0.5:
+        for fn, args in ((dsw.adjacency_matrix_to_accessor, (mat_ok,)), (dsw.accessor_to_adjacency_matrix, (acc,)),
+                         (dsw.accessor_to_latter_map, (acc,)), (dsw.latter_map_to_accessor, ({v: list(ws) for v, ws in want_lm.items()}, k))):
+            try:
+                first = fn(*args)
+            except Exception:  # noqa
+                continue
+            checked, same, second = alias.repeat_after_scramble(fn, args, {}, first)
+            if checked and not same:
+                ctx.fail("answer-changes-after-result-was-edited", "%s called again after the caller edited the first result in place gives a different answer; %s" % (fn.__name__, where))
+        ctx.cls("converters repeated after their result was scrambled")
     out = monitored(dsw.obtain_vertices, big, facc)
     if out.kind != "ok" or sorted(int(x) for x in np.asarray(out.value).tolist()) != sorted(want_lm):
         ctx.fail("vertex-listing", "obtain_vertices %s, expected %s; %s" % (out.describe(), sorted(want_lm)[:20], where))
@@ -276,7 +290,7 @@ def floors(agg, tier):
     c = agg["classes"]
     for name, need in (("density|partial", 500), ("density|empty", 20), ("density|complete", 20), ("illegal-matrix|rejected", 1000),
                        ("leaf-query|live root", 1000), ("leaf-query|dead root", 200), ("k|5", 20),
-                       ("hand-built map in arbitrary order", 500), ("matrix layout|F", 200), ("matrix layout|T", 200), ("leaf-query|level beyond a million vertices", 1), ("illegal-matrix|re-wired rejected", 500),
+                       ("hand-built map in arbitrary order", 500), ("converters repeated after their result was scrambled", 300), ("matrix layout|F", 200), ("matrix layout|T", 200), ("leaf-query|level beyond a million vertices", 1), ("illegal-matrix|re-wired rejected", 500),
                        ("earlier matrix re-read after a later conversion (k=5)", 20), ("leaf queries repeated after an in-place edit", 500)):
         if c.get(name, 0) < need:
             out.append("%s observed %d < %d" % (name, c.get(name, 0), need))
